@@ -60,6 +60,10 @@ theorem gen_protocol_eq_model :
     WrapSource.atomsPropPin = atomsPropPin ∧ WrapSource.vectAngleTailPin = vectAngleTailPin := by
   decide
 
+/-- `Atoms.__deepcopy__`: the keys copied explicitly and the names the loop's filter excludes (by exact match). -/
+theorem gen_deepcopyKeys_eq_model :
+    WrapSource.atomsCopyExplicit = atomsCopyExplicit ∧ WrapSource.atomsCopyReserved = atomsCopyReserved := ⟨rfl, rfl⟩
+
 /-! ### formulas -/
 
 section formulas
